@@ -346,201 +346,166 @@ Proof.
   repeat split; vm_compute; reflexivity.
 Qed.
 
-(* ======================================================================================================================
-   The table functions of /repo/ex.c ON THE C TEXT.  tools/c2clite.py translates bufs_find, bufs_findroom, bufs_save, bufs_load,
-   bufs_switch, bufs_shift, bufs_number, bufs_free, ex_path, ex_filetype (tools/c2clite.d/85_bufs.list) into CLite terms
-   (coq/GenCFuncs.v); coq/TrBufs.v proves what running them does to a memory in which block G_bufs holds ANY table `t`
-   (16 slots of 41 cells: TrBufs.cslot / tab_cells), the one-cell blocks G_xrow G_xoff G_xtop G_xleft G_xtd hold the cursor and
-   G_bufs_cnt the counter -- every load and store checked, no signed overflow, explicit resulting memory.  reg_put (called by
-   bufs_load) and lbuf_free (called by bufs_free) are NOT translated: those theorems are about CLiteExt.callx, which is callf
-   with an oracle `ext` for the untranslated functions, and hold for EVERY oracle under a hypothesis about its answer on the one
-   call that is reached.  tab_rep relates the C table to the model table `bufs s` of BufsDefs.v. *)
-From NV Require Import Bytes CLite CLiteProps GenCFuncs CLiteTac CLiteExt TrBufs.
-Local Open Scope Z_scope.
+(* ---------------------------------------------------------------------------------------------
+   ren_position's FAST PATH IS THE C TEXT (coq/TrRenPos.v, coq/TrRenPos2.v): uc_chop, conf_placeholder,
+   ren_placeholder, ren_cwid and the fast path of ren_position are proved equal to the model on the translated C
+   text, which discharges the hypothesis pos_call of the theorems above for every line that is NOT reordered:
+   ren_off, ren_pos, ren_next, ren_cursor are then the model's functions with no hypothesis about ren_position.
+   Vocabulary (definitions in TrRenPos.v / TrRenPos2.v):
+     ro_at m        the read-only data ren_cwid uses (dwchars, zwchars, bchars, the placeholder table and its
+                    string literals, "" and the bell glyph) are in m where the program put them (weaker than
+                    globals_at: the static `bits` of ren_placeholder and the options may have any value);
+     bits_ok m      that static holds 0xffff (never computed) or the common bits of the placeholder sources;
+     ren_frame m M  M is m with blocks appended (the semantics never reclaims the address-taken locals wid, src,
+                    dst), every older block but `bits` untouched, bits_ok M;
+     no_trunc s     every multi-byte sequence of s is complete (uc_len(s) bytes before the terminator);
+     fast_mem o m b s   ro_at, bits_ok, the line s in block b, xlim / xorder hold the options o;
+     fast_line o s  s is NUL-free, no_trunc, at most 2^28 - 2 bytes (8 columns per character fit an int), and
+                    RenDefs.use_reorder o s = false: the C condition `n <= xlim && (xorder == 2 || (xorder == 1 &&
+                    n < strlen(s)))` that selects ren_position_reorder is false.
+   ren_position_reorder (dir_reorder, i.e. the regex engine) stays outside: X_ren_position_reorder is an extern of
+   the translated program, and a call of it is an error of the semantics. *)
+From NV Require Import TrRenPos TrRenPos2.
 
-(* the oracle semantics: with the oracle that always fails it is callf; whatever succeeds under callf succeeds, with the same
-   result, under every oracle *)
-Theorem C20_tr_oracle : callf = callx ext_none /\
-  (forall ext prog fuel d f args m r, callf prog fuel d f args m = Ok r -> callx ext prog fuel d f args m = Ok r).
-Proof. split; [exact callf_callx0|exact callx_mono]. Qed.
-Print Assumptions C20_tr_oracle.
+(* uc_chop(s, &n): *n = uc_slen(s); the result is a FRESH block holding the n + 1 character-start pointers of the model
+   (the last one points at the terminator); no other block changes *)
+Theorem C17_tr_uc_chop : forall m b s nb nblk no d fuel, str_at m b s -> nonul s ->
+  nth_error m nb = Some nblk -> 0 <= no < Z.of_nat (length nblk) -> nb <> b ->
+  (S (length s) < fuel)%nat -> Z.of_nat (length s) < 2147483647 ->
+  callf cprog fuel (S (S (S d))) F_uc_chop [VPtr b 0; VPtr nb no] m
+  = Ok (VPtr (length m) 0,
+        CLiteProps.upd m nb (CLiteProps.upd nblk (Z.to_nat no) (VInt (Z.of_nat (uc_slen s)))) ++ [map (cptr b) (uc_chop s)]).
+Proof. exact tr_uc_chop. Qed.
+Print Assumptions C17_tr_uc_chop.
 
-(* bufs_find(path): for ANY table whose path cells are NULL or point to C strings (ps lists them) and any path string p: the index
-   of the first slot whose path equals p ("/" standing for ""), or -1; memory unchanged *)
-Theorem C20_tr_bufs_find : forall m t ps pb p d fuel, tab_at m t -> tab_ok t -> paths_at m t ps ->
-  str_at m pb p -> nonul p -> str_at m G_lit__0 [] -> (16 < fuel)%nat ->
-  callf cprog fuel (S d) F_bufs_find [VPtr pb 0] m = Ok (VInt (idx_z (first_idx (path_hit (canon p)) ps)), m).
-Proof. exact tr_bufs_find. Qed.
-Print Assumptions C20_tr_bufs_find.
-(* ... and that is the model's bufs_find when the table represents the model table *)
-Theorem C20_tr_bufs_find_model : forall (L : Type) m t (s : st L) pb p d fuel, tab_at m t -> tab_ok t -> tab_rep m t (bufs s) ->
-  str_at m pb p -> nonul p -> str_at m G_lit__0 [] -> (16 < fuel)%nat ->
-  callf cprog fuel (S d) F_bufs_find [VPtr pb 0] m = Ok (VInt (idx_z (bufs_find s p)), m).
-Proof. intro L. exact (@tr_bufs_find_model L). Qed.
-Print Assumptions C20_tr_bufs_find_model.
+(* ren_placeholder(s, &wid) with the placeholder table READ FROM conf.h's initializer: the returned string, *wid and the
+   static bits are the model's; two one-cell blocks (src, dst) are appended *)
+Theorem C17_tr_ren_placeholder : forall m b s o wb vw0 d fuel,
+  ro_at m -> bits_ok m -> str_at m b s -> bytes_lt256 s -> (o + uc_len_b (nthb s o) - 1 <= length s)%nat -> (o <= length s)%nat ->
+  nth_error m wb = Some [vw0] -> wb <> G_bits -> ro_g wb = false -> wb <> b ->
+  (nph < fuel)%nat -> (fuel_tabs <= fuel)%nat ->
+  exists v M, callf cprog fuel (S (S (S (S d)))) F_ren_placeholder [VPtr b (Z.of_nat o); VPtr wb 0] m = Ok (v, M) /\
+    length M = (length m + 2)%nat /\
+    (forall g, (g < length m)%nat -> g <> wb -> g <> G_bits -> nth_error M g = nth_error m g) /\
+    nth_error M wb = Some [VInt (snd (ren_placeholder (skipn o s)))] /\
+    cell_at M G_bits (Z.of_N ph_bits) /\
+    match fst (ren_placeholder (skipn o s)) with
+    | Some dm => exists g, v = VPtr g 0 /\ str_at M g dm
+    | None => v = VInt 0
+    end.
+Proof. exact tr_ren_placeholder. Qed.
+Print Assumptions C17_tr_ren_placeholder.
 
-(* bufs_findroom(): the first of the slots 0..14 with lb == NULL, else 15 *)
-Theorem C20_tr_bufs_findroom : forall m t d fuel, tab_at m t -> tab_ok t -> lbs_ok t -> (15 < fuel)%nat ->
-  callf cprog fuel (S d) F_bufs_findroom [] m = Ok (VInt (Z.of_nat (room_of t)), m).
-Proof. exact tr_bufs_findroom. Qed.
-Print Assumptions C20_tr_bufs_findroom.
-Theorem C20_tr_bufs_findroom_model : forall (L : Type) m t (s : st L) d fuel, tab_at m t -> tab_ok t -> tab_rep m t (bufs s) -> (15 < fuel)%nat ->
-  callf cprog fuel (S d) F_bufs_findroom [] m = Ok (VInt (Z.of_nat (bufs_findroom s)), m).
-Proof. intro L. exact (@tr_bufs_findroom_model L). Qed.
-Print Assumptions C20_tr_bufs_findroom_model.
+(* ren_cwid(s, pos) for EVERY character: a tab reaches the next multiple of 8, a placeholder character has its declared
+   width, anything else uc_wid -- the value of RenDefs.ren_cwid (C17_cwid_class, C17_tiling speak about it) *)
+Theorem C17_tr_ren_cwid : forall m b s o pos d fuel,
+  ro_at m -> bits_ok m -> str_at m b s -> bytes_lt256 s -> (o + uc_len_b (nthb s o) - 1 <= length s)%nat -> (o <= length s)%nat ->
+  (nph < fuel)%nat -> (fuel_tabs <= fuel)%nat ->
+  exists M, callf cprog fuel (S (S (S (S (S d))))) F_ren_cwid [VPtr b (Z.of_nat o); VInt pos] m
+            = Ok (VInt (ren_cwid (skipn o s) pos), M) /\ ren_frame m M.
+Proof. exact tr_ren_cwid. Qed.
+Print Assumptions C17_tr_ren_cwid.
 
-(* bufs_save(): xrow xoff xtop xleft xtd go into row off top left td of slot 0 (td is a short), nothing else changes; and the
-   table then represents the model's bufs_save when slot 0 is occupied *)
-Theorem C20_tr_bufs_save : forall m t r o tp l td d fuel, tab_at m t -> tab_ok t -> globs_at m r o tp l td ->
-  int_ok r -> int_ok o -> int_ok tp -> int_ok l -> int_ok td ->
-  callf cprog fuel (S d) F_bufs_save [] m = Ok (VUndef, upd m G_bufs (tab_cells (save0 t r o tp l td))).
-Proof. exact tr_bufs_save. Qed.
-Print Assumptions C20_tr_bufs_save.
-Theorem C20_tr_save_is_model : forall (L : Type) m t (s : st L) r o tp l td b0, tab_rep m t (bufs s) -> xv s = mkview r o tp l td -> short_ok td ->
-  nth_error (bufs s) 0 = Some (Some b0) -> tab_rep m (save0 t r o tp l td) (bufs (bufs_save s)).
-Proof. intro L. exact (@rep_save L). Qed.
-Print Assumptions C20_tr_save_is_model.
+(* ren_position(s) on the fast path: a fresh block holding the n + 1 columns of the model; with use_reorder o s = false
+   that IS RenDefs.ren_position dr o s for every dr (second statement) *)
+Theorem C17_tr_ren_position_fast : forall o m b s d fuel, fast_mem o m b s -> fast_line o s ->
+  (length s < fuel)%nat -> (nph < fuel)%nat -> (fuel_tabs <= fuel)%nat ->
+  exists M, callf cprog fuel (S (S (S (S (S (S d)))))) F_ren_position [VPtr b 0] m = Ok (VPtr (length m) 0, M) /\
+            int_arr_at M (length m) (ren_fast (uc_slen s) s 0) /\ ren_frame m M.
+Proof. exact tr_ren_position_fast. Qed.
+Print Assumptions C17_tr_ren_position_fast.
+Theorem C17_tr_ren_position_model : forall dr o s, use_reorder o s = false -> ren_position dr o s = ren_fast (uc_slen s) s 0.
+Proof. exact ren_position_is_fast. Qed.
+Print Assumptions C17_tr_ren_position_model.
 
-(* bufs_load(): the globals are set from slot 0, then reg_put('%', path or "", 0) is called on exactly that memory *)
-Theorem C20_tr_bufs_load : forall ext m t r0 o0 tp0 l0 td0 u m' d fuel, tab_at m t -> tab_ok t -> globs_at m r0 o0 tp0 l0 td0 ->
-  slot_ints (nths t 0) -> ptr_val (cs_path (nths t 0)) ->
-  let s := nths t 0 in
-  ext X_reg_put [VInt 37; path_arg (cs_path s); VInt 0] (set_globs m (cs_row s) (cs_off s) (cs_top s) (cs_left s) (cs_td s)) = Ok (u, m') ->
-  callx ext cprog fuel (S (S d)) F_bufs_load [] m = Ok (VUndef, m').
-Proof. exact tr_bufs_load. Qed.
-Print Assumptions C20_tr_bufs_load.
+(* UNCONDITIONAL on lines that are not reordered: the whole translated functions return the model's values *)
+Theorem C17_tr_ren_off_fast : forall dr o m b s p d fuel, fast_mem o m b s -> fast_line o s ->
+  (length s < fuel)%nat -> (nph < fuel)%nat -> (fuel_tabs <= fuel)%nat ->
+  exists M, callf cprog fuel (S (S (S (S (S (S (S d))))))) F_ren_off [VPtr b 0; VInt p] m
+            = Ok (VInt (Z.of_nat (ren_off dr o s p)), M) /\ ren_frame m M.
+Proof. exact tr_ren_off_fast. Qed.
+Print Assumptions C17_tr_ren_off_fast.
+Theorem C17_tr_ren_pos_fast : forall dr o m b s off d fuel, fast_mem o m b s -> fast_line o s -> 0 <= off ->
+  (length s < fuel)%nat -> (nph < fuel)%nat -> (fuel_tabs <= fuel)%nat ->
+  exists M, callf cprog fuel (S (S (S (S (S (S (S d))))))) F_ren_pos [VPtr b 0; VInt off] m
+            = Ok (VInt (ren_pos dr o s off), M) /\ ren_frame m M.
+Proof. exact tr_ren_pos_fast. Qed.
+Print Assumptions C17_tr_ren_pos_fast.
+Theorem C17_tr_ren_next_fast : forall dr o m b s p dir d fuel, fast_mem o m b s -> fast_line o s ->
+  (length s < fuel)%nat -> (nph < fuel)%nat -> (fuel_tabs <= fuel)%nat ->
+  exists M, callf cprog fuel (S (S (S (S (S (S (S (S d)))))))) F_ren_next [VPtr b 0; VInt p; VInt dir] m
+            = Ok (VInt (ren_next dr o s p dir), M) /\ ren_frame m M.
+Proof. exact tr_ren_next_fast. Qed.
+Print Assumptions C17_tr_ren_next_fast.
+Theorem C17_tr_ren_cursor_fast : forall dr o m b s p d fuel, fast_mem o m b s -> fast_line o s ->
+  (length s < fuel)%nat -> (nph < fuel)%nat -> (fuel_tabs <= fuel)%nat ->
+  exists M, callf cprog fuel (S (S (S (S (S (S (S (S d)))))))) F_ren_cursor [VPtr b 0; VInt p] m
+            = Ok (VInt (ren_cursor dr o s p), M) /\ ren_frame m M.
+Proof. exact tr_ren_cursor_fast. Qed.
+Print Assumptions C17_tr_ren_cursor_fast.
 
-(* bufs_switch(idx) -- C20_switch_permutes on the C text.  A struct buf tmp is allocated (a fresh block at the end of memory);
-   bufs_save; if bufs[0].lb is not NULL the translated lbuf_modified runs on exactly that pointer (hypothesis bump_call: it
-   leaves m2; TrBufsLbuf.v shows m2 = useq + 1 on that struct); tmp = bufs[idx]; bufs[1..idx] = bufs[0..idx-1]; bufs[0] = tmp
-   -- the table is BufsDefs.switch of the saved table, every slot moved as a whole; bufs_load.  For any table, 0 <= idx < 16. *)
-Theorem C20_tr_bufs_switch : forall ext m t r o tp l td i m2 u m' d fuel,
-  tab_at m t -> tab_ok t -> globs_at m r o tp l td -> int_ok r -> int_ok o -> int_ok tp -> int_ok l -> int_ok td ->
-  (i < 16)%nat -> ptr_val (cs_lb (nths t 0)) ->
-  let t1 := save0 t r o tp l td in
-  let m1 := upd (m ++ [repeat VUndef 41]) G_bufs (tab_cells t1) in
-  bump_call ext fuel d (cs_lb (nths t 0)) m1 m2 -> length m2 = length m1 ->
-  same_on [G_bufs; length m; G_xrow; G_xoff; G_xtop; G_xleft; G_xtd] m1 m2 ->
-  let sx := nths t1 i in
-  slot_ints sx -> ptr_val (cs_path sx) ->
-  let m4 := upd (upd m2 (length m) (slot_cells sx)) G_bufs (tab_cells (switch t1 i)) in
-  ext X_reg_put [VInt 37; path_arg (cs_path sx); VInt 0] (set_globs m4 (cs_row sx) (cs_off sx) (cs_top sx) (cs_left sx) (cs_td sx)) = Ok (u, m') ->
-  callx ext cprog fuel (S (S (S d))) F_bufs_switch [VInt (Z.of_nat i)] m = Ok (VUndef, m').
-Proof. exact tr_bufs_switch. Qed.
-Print Assumptions C20_tr_bufs_switch.
-(* ... against the model: the table handed to reg_put represents bufs (bufs_switch Lo s i), the globals are xv (bufs_switch Lo s i),
-   every other block below the old end of memory is what lbuf_modified left *)
-Theorem C20_tr_bufs_switch_model : forall (L Op Out : Type) (Lo : lops L Op Out) ext m t (s : st L) i b0 m2 u m' d fuel,
-  tab_at m t -> tab_ok t -> tab_rep m t (bufs s) -> Forall slot_ints t ->
-  let r := v_row (xv s) in let o := v_off (xv s) in let tp := v_top (xv s) in let l := v_left (xv s) in let td := v_td (xv s) in
-  globs_at m r o tp l td -> int_ok r -> int_ok o -> int_ok tp -> int_ok l -> short_ok td ->
-  (i < 16)%nat -> nth_error (bufs s) 0 = Some (Some b0) ->
-  let t1 := save0 t r o tp l td in
-  let m1 := upd (m ++ [repeat VUndef 41]) G_bufs (tab_cells t1) in
-  bump_call ext fuel d (cs_lb (nths t 0)) m1 m2 -> length m2 = length m1 ->
-  same_on [G_bufs; length m; G_xrow; G_xoff; G_xtop; G_xleft; G_xtd] m1 m2 ->
-  let s' := bufs_switch Lo s i in
-  let t2 := switch t1 i in
-  let m5 := set_globs (upd (upd m2 (length m) (slot_cells (nths t1 i))) G_bufs (tab_cells t2))
-                      (v_row (xv s')) (v_off (xv s')) (v_top (xv s')) (v_left (xv s')) (v_td (xv s')) in
-  ext X_reg_put [VInt 37; path_arg (cs_path (nths t2 0)); VInt 0] m5 = Ok (u, m') ->
-  callx ext cprog fuel (S (S (S d))) F_bufs_switch [VInt (Z.of_nat i)] m = Ok (VUndef, m') /\
-  tab_at m5 t2 /\ tab_rep m t2 (bufs s') /\
-  globs_at m5 (v_row (xv s')) (v_off (xv s')) (v_top (xv s')) (v_left (xv s')) (v_td (xv s')) /\
-  (forall b, (b < length m)%nat -> ~ In b [G_bufs; G_xrow; G_xoff; G_xtop; G_xleft; G_xtd] -> nth_error m5 b = nth_error m2 b).
-Proof. intros L Op Out Lo. exact (@tr_bufs_switch_model L Op Out Lo). Qed.
-Print Assumptions C20_tr_bufs_switch_model.
+(* C17_roundtrip on the C text: the column the translated ren_pos returns for character off, handed to the translated
+   ren_off (in the memory the first call left), comes back as off *)
+Theorem C17_tr_roundtrip_fast : forall o m b s off d fuel, fast_mem o m b s -> fast_line o s -> 0 <= off < Z.of_nat (uc_slen s) ->
+  (length s < fuel)%nat -> (nph < fuel)%nat -> (fuel_tabs <= fuel)%nat ->
+  exists v M1 M2,
+    callf cprog fuel (S (S (S (S (S (S (S d))))))) F_ren_pos [VPtr b 0; VInt off] m = Ok (VInt v, M1) /\
+    callf cprog fuel (S (S (S (S (S (S (S d))))))) F_ren_off [VPtr b 0; VInt v] M1 = Ok (VInt off, M2) /\ ren_frame m M2.
+Proof. exact tr_roundtrip_fast. Qed.
+Print Assumptions C17_tr_roundtrip_fast.
 
-(* bufs_free(i): nothing when lb is NULL; else free(path), lbuf_free(lb) (oracle; it must keep the table block), the slot zeroed *)
-Theorem C20_tr_bufs_free : forall ext m t i mc d fuel, tab_at m t -> tab_ok t -> (i < 16)%nat ->
-  ptr_val (cs_lb (nths t i)) -> ptr_val (cs_path (nths t i)) -> freed ext t i m mc ->
-  callx ext cprog fuel (S (S d)) F_bufs_free [VInt (Z.of_nat i)] m = Ok (VUndef, mc).
-Proof. exact tr_bufs_free. Qed.
-Print Assumptions C20_tr_bufs_free.
-(* bufs_shift(): after bufs_free(0) (which left mc with table t'), slots 1..15 move down by one and slot 15 is zeroed
-   (tl t' ++ [zero] -- the model's tl (bufs s) ++ [None]), then bufs_load *)
-Theorem C20_tr_bufs_shift : forall ext m mc t' r0 o0 tp0 l0 td0 uf u m' d fuel,
-  callx ext cprog fuel (S (S d)) F_bufs_free [VInt 0] m = Ok (uf, mc) ->
-  tab_at mc t' -> tab_ok t' -> globs_at mc r0 o0 tp0 l0 td0 ->
-  let t2 := tl t' ++ [cs_zero] in
-  let sx := nths t2 0 in
-  slot_ints sx -> ptr_val (cs_path sx) ->
-  ext X_reg_put [VInt 37; path_arg (cs_path sx); VInt 0]
-      (set_globs (upd mc G_bufs (tab_cells t2)) (cs_row sx) (cs_off sx) (cs_top sx) (cs_left sx) (cs_td sx)) = Ok (u, m') ->
-  callx ext cprog fuel (S (S (S d))) F_bufs_shift [] m = Ok (VUndef, m').
-Proof. exact tr_bufs_shift. Qed.
-Print Assumptions C20_tr_bufs_shift.
-Theorem C20_tr_shift_is_model : forall (L : Type) m t (s : st L), tab_rep m t (bufs s) ->
-  let t2 := tl t ++ [cs_zero] in tab_rep m t2 (bufs (bufs_shift s)) /\ xv (bufs_shift s) = view_of (nths t2 0).
-Proof. intro L. exact (@rep_shift L). Qed.
-Print Assumptions C20_tr_shift_is_model.
-
-(* bufs_number(): ids 1, 2, ... for the occupied slots in slot order, bufs_cnt their number -- the model's renum *)
-Theorem C20_tr_bufs_number : forall m t c0 d fuel, tab_at m t -> tab_ok t -> lbs_ok t -> cell_at m G_bufs_cnt c0 -> (16 < fuel)%nat ->
-  callf cprog fuel (S d) F_bufs_number [] m
-  = Ok (VUndef, upd (upd m G_bufs (tab_cells (fst (c_renum t 0)))) G_bufs_cnt [VInt (snd (c_renum t 0))]).
-Proof. exact tr_bufs_number. Qed.
-Print Assumptions C20_tr_bufs_number.
-Theorem C20_tr_number_is_model : forall (L : Type) m t (s : st L), tab_rep m t (bufs s) ->
-  tab_rep m (fst (c_renum t 0)) (bufs (bufs_number s)) /\ snd (c_renum t 0) = cnt (bufs_number s).
-Proof. intro L. exact (@rep_number L). Qed.
-Print Assumptions C20_tr_number_is_model.
-
-(* ex_path(): the path cell of slot 0 *)
-Theorem C20_tr_ex_path : forall m t d fuel, tab_at m t -> tab_ok t -> ptr_val (cs_path (nths t 0)) ->
-  callf cprog fuel (S d) F_ex_path [] m = Ok (cs_path (nths t 0), m).
-Proof. exact tr_ex_path. Qed.
-Print Assumptions C20_tr_ex_path.
-
-(* ---- the translated functions RUN: three buffers a, b, c in slots 0..2 of a table in memory (the program's global blocks with
-   G_bufs and the cursor cells filled in, three path strings and three struct lbuf of 75 cells behind them) *)
-Definition exN : nat := length cglobals.
-Definition ex_lb (useq : Z) : block := repeat (VInt 0) 68 ++ [VInt useq; VInt 0; VInt 0; VInt 0; VInt 0; VInt 0; VInt 0].
-Definition ex_slot (k : nat) (row off top left id td mt : Z) : cslot :=
-  mkcs (repeat (VInt 0) 32) (VPtr (exN + k) 0) (VPtr (exN + 3 + k) 0) row off top left id td mt.
-Definition ex_tab : list cslot :=
-  [ex_slot 0 10 1 5 0 1 1 100; ex_slot 1 20 2 15 0 2 (-1) 200; ex_slot 2 30 3 25 4 3 1 300] ++ repeat cs_zero 13.
-Definition ex_mem : mem :=
-  upd (upd (upd (upd (upd (upd cglobals G_bufs (tab_cells ex_tab)) G_xrow [VInt 11]) G_xoff [VInt 7]) G_xtop [VInt 6]) G_xleft [VInt 2]) G_xtd [VInt 1]
-  ++ [cstr_block [97]; cstr_block [98]; cstr_block [99]; ex_lb 5; ex_lb 6; ex_lb 7].
-Definition ex_view (r o tp l td : Z) := mkview r o tp l td.
-Definition ex_st : st unit :=
-  BufsDefs.mkst [Some (mkbuf 1 [97%N] tt (ex_view 10 1 5 0 1) 100); Some (mkbuf 2 [98%N] tt (ex_view 20 2 15 0 (-1)) 200);
-                 Some (mkbuf 3 [99%N] tt (ex_view 30 3 25 4 1) 300); None; None; None; None; None; None; None; None; None; None; None; None; None]
-                3 (ex_view 11 7 6 2 1) [] [] 0 false false [].
-(* reg_put answers "done, memory as it was"; everything else is untranslated *)
-Definition ex_ext : nat -> list val -> mem -> res (val * mem) := fun f _ m => if Nat.eqb f X_reg_put then Ok (VUndef, m) else Err EShape.
-
-Example C20_tr_nonvacuous :
-  tab_at ex_mem ex_tab /\ tab_ok ex_tab /\ tab_rep ex_mem ex_tab (bufs ex_st) /\ Forall slot_ints ex_tab /\
-  globs_at ex_mem 11 7 6 2 1 /\ str_at ex_mem G_lit__0 [] /\
-  (* bufs_find("c") = 2, bufs_find("/") = -1, bufs_findroom() = 3, memory unchanged *)
-  callf cprog 20 1 F_bufs_find [VPtr (exN + 2) 0] ex_mem = Ok (VInt 2, ex_mem) /\
-  callf cprog 20 1 F_bufs_findroom [] ex_mem = Ok (VInt 3, ex_mem) /\
-  (* bufs_switch(2): the table is c, a (with the cursor saved), b; a's struct lbuf has useq 6; the cursor is c's saved view *)
-  match callx ex_ext cprog 20 3 F_bufs_switch [VInt 2] ex_mem with
-  | Ok (_, m') =>
-      nth_error m' G_bufs = Some (tab_cells ([ex_slot 2 30 3 25 4 3 1 300; ex_slot 0 11 7 6 2 1 1 100; ex_slot 1 20 2 15 0 2 (-1) 200] ++ repeat cs_zero 13)) /\
-      nth_error m' (exN + 3) = Some (ex_lb 6) /\ nth_error m' (exN + 4) = Some (ex_lb 6) /\ nth_error m' (exN + 5) = Some (ex_lb 7) /\
-      globs_at m' 30 3 25 4 1
-  | Err _ => False
-  end /\
-  (* the same table from the model *)
-  map (fun x => match x with Some b => Some (b_id b, b_view b) | None => None end) (firstn 3 (bufs (bufs_switch clb_ops
-     (BufsDefs.mkst (map (fun x => match x with Some b => Some (mkbuf (b_id b) (b_path b) clb_make (b_view b) (b_mtime b)) | None => None end) (bufs ex_st))
-                    3 (xv ex_st) [] [] 0 false false []) 2)))
-  = [Some (3, ex_view 30 3 25 4 1); Some (1, ex_view 11 7 6 2 1); Some (2, ex_view 20 2 15 0 (-1))].
+(* the hypotheses hold and everything RUNS: the translated ren_position on "a<TAB>b" (default options) and on
+   "中<TAB>ـَb" = wide character, tab, placeholder character (fatha), letter, with order=0 (with the default order=1 a line with
+   a multi-byte character is reordered); uc_chop and ren_cwid on the second line; and no_trunc is not idle: on the line
+   f0 c3 0a (a 4-byte lead byte followed by 2 bytes) the translated ren_position leaves the string block (EOob) *)
+Example C17_tr_ren_position_nonvacuous :
+  let idr := fun (_ : bytes) (ord : list nat) => ord in
+  let b := length cglobals in
+  let s1 := [97; 9; 98]%N in
+  let m1 := cglobals ++ [cstr_block (zb s1)] in
+  let o1 := {| xorder := 1; xlim := 256 |} in
+  let s2 := [228; 184; 173; 9; 217; 142; 98]%N in
+  let m2 := CLiteProps.upd cglobals G_xorder [VInt 0] ++ [cstr_block (zb s2)] in
+  let o2 := {| xorder := 0; xlim := 256 |} in
+  let r1 := callf cprog 100 6 F_ren_position [VPtr b 0] m1 in
+  let r2 := callf cprog 100 6 F_ren_position [VPtr b 0] m2 in
+  let m3 := m2 ++ [[VUndef]] in
+  let r3 := callf cprog 100 3 F_uc_chop [VPtr b 0; VPtr (length m2) 0] m3 in
+  let s4 := [240; 195; 10]%N in
+  (fast_mem o1 m1 b s1 /\ fast_line o1 s1 /\ fast_mem o2 m2 b s2 /\ fast_line o2 s2) /\
+  (retv r1 = Ok (VPtr (length m1) 0) /\ nth_error (getm r1) (length m1) = Some (map VInt [0; 1; 8; 9]) /\
+   ren_position idr o1 s1 = [0; 1; 8; 9]) /\
+  (retv r2 = Ok (VPtr (length m2) 0) /\ nth_error (getm r2) (length m2) = Some (map VInt [0; 2; 8; 9; 10]) /\
+   ren_position idr o2 s2 = [0; 2; 8; 9; 10]) /\
+  (retv r3 = Ok (VPtr (length m3) 0) /\ nth_error (getm r3) (length m2) = Some [VInt 4] /\
+   nth_error (getm r3) (length m3) = Some [VPtr b 0; VPtr b 3; VPtr b 4; VPtr b 6; VPtr b 7] /\ uc_chop s2 = [0; 3; 4; 6; 7]%nat) /\
+  (retv (callf cprog 100 5 F_ren_cwid [VPtr b 3; VInt 2] m2) = Ok (VInt 6) /\
+   retv (callf cprog 100 5 F_ren_cwid [VPtr b 0; VInt 0] m2) = Ok (VInt 2) /\
+   retv (callf cprog 100 5 F_ren_cwid [VPtr b 4; VInt 8] m2) = Ok (VInt 1)) /\
+  (retv (callf cprog 100 8 F_ren_off [VPtr b 0; VInt 5] m2) = Ok (VInt 1) /\
+   retv (callf cprog 100 8 F_ren_cursor [VPtr b 0; VInt 3] m2) = Ok (VInt 7)) /\
+  (~ no_trunc s4 /\ nonul s4 /\
+   callf cprog 100 6 F_ren_position [VPtr b 0] (cglobals ++ [cstr_block (zb s4)]) = Err EOob).
 Proof.
-  split; [vm_compute; reflexivity|]. split; [split; [reflexivity|repeat constructor]|].
+  cbv zeta.
+  assert (R1 : ro_at cglobals) by (apply ro_at_globals, globals_at_self).
+  assert (B1 : forall r, bits_ok (cglobals ++ r)) by (intro r; left; reflexivity).
   split.
-  { unfold tab_rep, ex_tab, ex_st. cbn [bufs app repeat].
-    repeat (apply Forall2_cons; [first [ cbn [slot_rep]; split; [apply path_str; [vm_compute; reflexivity|repeat constructor; vm_compute; reflexivity]|];
-                                          split; [eexists; eexists; reflexivity|]; repeat split
-                                        | cbn [slot_rep]; repeat split ]|]).
-    apply Forall2_nil. }
-  split; [repeat constructor; vm_compute; intro H; discriminate H|].
-  split; [constructor; vm_compute; reflexivity|]. split; [vm_compute; reflexivity|].
-  split; [vm_compute; reflexivity|]. split; [vm_compute; reflexivity|].
-  split; [|vm_compute; reflexivity].
-  vm_compute. repeat split.
+  { repeat split; try (vm_compute; reflexivity); try (vm_compute; intro H; discriminate H).
+    - apply ro_at_app. exact R1.
+    - apply B1.
+    - apply byte_okb_nonul. reflexivity.
+    - apply no_trunc_dec. reflexivity.
+    - apply ro_at_app, ro_at_upd; [exact R1|reflexivity].
+    - left. reflexivity.
+    - apply byte_okb_nonul. reflexivity.
+    - apply no_trunc_dec. reflexivity. }
+  split; [repeat split; vm_compute; reflexivity|].
+  split; [repeat split; vm_compute; reflexivity|].
+  split; [repeat split; vm_compute; reflexivity|].
+  split; [repeat split; vm_compute; reflexivity|].
+  split; [repeat split; vm_compute; reflexivity|].
+  split; [|split; [apply byte_okb_nonul; reflexivity|vm_compute; reflexivity]].
+  intro H. specialize (H 0%nat ltac:(vm_compute; repeat constructor)). vm_compute in H.
+  repeat (apply le_S_n in H). inversion H.
 Qed.
